@@ -27,6 +27,7 @@ import (
 	ocispec "github.com/opencontainers/image-spec/specs-go/v1"
 
 	"crypto/x509"
+	"crypto/x509/pkix"
 )
 
 var resAlphabet = []result.Result{result.ResultOK, result.ResultNonRevokable, result.ResultUnknown, result.ResultRevoked, result.Result(99)}
@@ -50,6 +51,10 @@ type caseT struct {
 	// Prior 1: the same verifier instance verified the same signature before while the validator answered OK
 	// for every certificate; the judged verification must reflect the validator's current answer.
 	Prior int `json:"prior"`
+	// Ctor 1: the verifier is built with the deprecated verifier.NewWithOptions(policy, store, manager, opts).
+	Ctor int `json:"ctor"`
+	// EmptyLeafSubject: the leaf certificate has an empty subject DN (identity in a subjectAltName).
+	EmptyLeafSubject bool `json:"empty_leaf_subject"`
 }
 
 func (c caseT) vecString() string {
@@ -61,19 +66,26 @@ func (c caseT) vecString() string {
 }
 
 type world struct {
-	chains   map[int]*pki.Chain
-	desc     ocispec.Descriptor
-	envs     map[string][]byte
-	signTime time.Time
+	emptyChains map[int]*pki.Chain
+	chains      map[int]*pki.Chain
+	desc        ocispec.Descriptor
+	envs        map[string][]byte
+	signTime    time.Time
 }
 
 var ctx = context.Background()
 
 func (w *world) run(r *hx.Run, c caseT) {
 	ch := w.chains[c.N]
+	if c.EmptyLeafSubject {
+		ch = w.emptyChains[c.N]
+	}
 	scheme := []string{forge.SchemeX509, forge.SchemeSA}[c.Scheme]
 	storeType := []string{"ca", "signingAuthority"}[c.Scheme]
 	env := w.envs[fmt.Sprintf("%d/%d/%d/%d", c.N, c.Scheme, c.Format, c.Plugin)]
+	if c.EmptyLeafSubject {
+		env = w.envs[fmt.Sprintf("e%d/%d/%d", c.N, c.Scheme, c.Format)]
+	}
 	priorPhase := c.Prior == 1
 	script := func(chain []*x509.Certificate) ([]*result.CertRevocationResult, error) {
 		if priorPhase {
@@ -125,7 +137,15 @@ func (w *world) run(r *hx.Run, c caseT) {
 		opts.PluginManager = mgr
 	}
 	ts := mocks.NewTrustStore().Put(storeType, "s", ch.Root().Cert)
-	v, err := verifier.NewVerifierWithOptions(ts, opts)
+	var v notation.Verifier
+	var err error
+	if c.Ctor == 1 {
+		doc, pm := opts.OCITrustPolicy, opts.PluginManager
+		opts.OCITrustPolicy, opts.PluginManager = nil, nil
+		v, err = verifier.NewWithOptions(doc, ts, pm, opts)
+	} else {
+		v, err = verifier.NewVerifierWithOptions(ts, opts)
+	}
 	if err != nil {
 		r.Infra("verifier: %v", err)
 		return
@@ -144,6 +164,12 @@ func (w *world) run(r *hx.Run, c caseT) {
 		}
 		if c.Prior == 1 {
 			key += ":after-earlier-ok-verification-on-same-verifier"
+		}
+		if c.Ctor == 1 {
+			key += ":deprecated-constructor"
+		}
+		if c.EmptyLeafSubject {
+			key += ":leaf-with-empty-subject"
 		}
 		r.Violation(key, fmt.Sprintf("%s | n=%d vector=%s method=%v servers=%d validatorError=%v iface=%d action=%s scheme=%s", what, c.N, c.vecString(), methods[c.Method], c.Servers, c.VErr, c.Iface, c.Action, scheme), c)
 	}
@@ -250,6 +276,12 @@ func (w *world) run(r *hx.Run, c caseT) {
 				named := false
 				for i, x := range c.Vec {
 					subj := ch.X509()[i].Subject.String()
+					if subj == "" {
+						if x == 3 {
+							named = true // an empty subject cannot be recognised in the message
+						}
+						continue
+					}
 					if strings.Contains(msg, subj) {
 						if x == 3 {
 							named = true
@@ -285,10 +317,19 @@ func main() {
 	r := hx.New("C05")
 	r.Rule = "all result vectors over {OK, NonRevokable, Unknown, Revoked, undefined}^n (n=1..4, leaf first) crossed with method annotation, per-server errors, validator error, validator interface, action, scheme and format; one real verifier.Verify per case; non-trivial = distinct cases whose aggregated result is not a pass"
 	r.Assumptions = []string{"validator answers with exactly one result per certificate of the chain (vectors of other lengths are outside the quantifier)", "scripted validator from lib/mocks"}
-	w := &world{chains: map[int]*pki.Chain{}, envs: map[string][]byte{}, signTime: time.Now().Add(-48 * time.Hour).Truncate(time.Second).UTC()}
+	w := &world{chains: map[int]*pki.Chain{}, emptyChains: map[int]*pki.Chain{}, envs: map[string][]byte{}, signTime: time.Now().Add(-48 * time.Hour).Truncate(time.Second).UTC()}
 	w.desc = ocispec.Descriptor{MediaType: "application/vnd.oci.image.manifest.v1+json", Digest: digest.FromString("c05"), Size: 3}
 	for n := 1; n <= 4; n++ {
 		w.chains[n] = pki.NewChain(pki.ChainOpts{Len: n, Prefix: fmt.Sprintf("len%d", n), CAIdx: n})
+		if n >= 2 {
+			w.emptyChains[n] = pki.NewChain(pki.ChainOpts{Len: n, Prefix: fmt.Sprintf("len%d", n), CAIdx: n, ReuseCAs: w.chains[n].Certs[1:], Leaf: &pki.Tmpl{RawSubject: []pkix.RelativeDistinguishedNameSET{}}})
+			for s := 0; s < 2; s++ {
+				for f := 0; f < 2; f++ {
+					ech := w.emptyChains[n]
+					w.envs[fmt.Sprintf("e%d/%d/%d", n, s, f)] = forge.Build(forge.Spec{Format: forge.Formats[f], Chain: ech.X509(), Key: ech.Leaf().Key, Payload: forge.PayloadFor(w.desc), Scheme: []string{forge.SchemeX509, forge.SchemeSA}[s], SigningTime: w.signTime})
+				}
+			}
+		}
 		for s := 0; s < 2; s++ {
 			for f := 0; f < 2; f++ {
 				ch := w.chains[n]
@@ -349,6 +390,10 @@ func main() {
 									}
 									if m == 0 && sv == 0 {
 										cases = append(cases, caseT{N: n, Vec: vec, Iface: iface, Action: act, Scheme: sc, Format: f, Prior: 1})
+										cases = append(cases, caseT{N: n, Vec: vec, Iface: iface, Action: act, Scheme: sc, Format: f, Ctor: 1})
+										if n >= 2 && iface == 0 {
+											cases = append(cases, caseT{N: n, Vec: vec, Iface: iface, Action: act, Scheme: sc, Format: f, EmptyLeafSubject: true})
+										}
 									}
 								}
 							}
